@@ -13,13 +13,14 @@ VARIABLE c
 Types  == {"zxcvbn", "none", "unknown-type", "ZXCVBN"}
 Kinds  == {"score", "entropy", "time", "length", "Score", "empty"}
 Ops    == {">=", ">", "=", "<=", "=>", "missing"}
-Nums   == {"0", "3", "4", "5", "100", "max-uint64", "max-uint64+1", "-1", "3.5", "abc", "empty", "+3", "03", "1e3"}
+Nums   == {"0", "3", "4", "5", "100", "max-uint64", "max-uint64+1", "-1", "3.5", "abc", "empty", "+3", "03", "1e3",
+           "040", "0x3c", "0b11", "0o17", "3_0"}      \* decimal only: 040 is forty, the rest is not a number
 Extras == {"none", "extra-token"}
 Spaces == {"single", "multi", "tabs", "leading-trailing", "no-spaces"}
 
 Cases == [type : Types, kind : Kinds, op : Ops, num : Nums, extra : Extras, space : Spaces]
 
-IsUint(n) == n \in {"0", "3", "4", "5", "100", "max-uint64", "03"}
+IsUint(n) == n \in {"0", "3", "4", "5", "100", "max-uint64", "03", "040"}
 Small(n)  == n \in {"0", "3", "4", "03"}
 WellFormed(x) == /\ x.kind \in {"score", "entropy", "time"} /\ x.op = ">=" /\ IsUint(x.num)
                  /\ (x.kind = "score" => Small(x.num))
